@@ -318,6 +318,12 @@ def _internal_stringify_boolean(
     elif isinstance(node, boolean.AndRestriction) and not isinstance(node, atom):
         visit("(")
         iterable = node.restrictions
+    elif isinstance(node, boolean.JustOneRestriction):
+        visit("^^ (")
+        iterable = node.restrictions
+    elif isinstance(node, boolean.AtMostOneOfRestriction):
+        visit("?? (")
+        iterable = node.restrictions
     elif isinstance(node, packages.Conditional):
         assert len(node.restriction.vals) == 1
         iterable = node.payload
